@@ -33,6 +33,7 @@ ACTION_KINDS = {
     'onehot':   lambda n: [(1,0,0)[:max(n,2)],(0,1,0)[:max(n,2)],(0,0,1)[:max(n,2)]][:n],
     'lists':    lambda n: [[1,2],[3,4],[5,6]][:n],
     'sparse':   lambda n: [{'a':1},{'b':2},{'c':3}][:n],
+    'sparse2':  lambda n: [{'a':1,'b':2},{'c':3,'d':4},{'e':5,'f':6}][:n],      # two-key dicts (len 2, like an (action,prob) pair)
 }
 
 class Tok:
@@ -45,6 +46,7 @@ class Double:
         self.sym, self.fmt, self.kw, self.mode = sym, fmt, kw, mode
         self.calls = []      # ('predict', said rows)  /  ('learn', args)
         self.n = 0
+        self.flat = False                      # set by the harness: flat PMF + kwargs, only for >= 2 actions (a one-entry flat PMF [1,{..}] is the (action, kwargs) form)
     def _row(self, actions):
         i = self.n; self.n += 1
         n = len(actions)
@@ -55,8 +57,10 @@ class Double:
         p = self.sym.real(f'p{i}', 0.25, 1, denom=4)
         if not self.fmt.startswith('PM'):
             pmf = [1/n]*n
-        elif i == 0 and self.sym.choice('pmf0', ['symbolic','int_onehot']) == 'int_onehot':
+        elif i == 0 and (pk := self.sym.choice('pmf0', ['symbolic','int_onehot'] + (['float_offsum'] if n == 3 else []))) == 'int_onehot':
             pmf = [1 if j == idx else 0 for j in range(n)]      # degenerate PMF written with ints (looks like actions 0/1)
+        elif i == 0 and pk == 'float_offsum':
+            pmf = [.3334,.3333,.3334]                            # concrete binary64 weights summing to 1.0001 (inside coba's documented PMF tolerance of 1e-3): the stated entry must be reported bit for bit
         elif i == 0:
             # fully symbolic PMF on the first row: entries k/4, sum exactly 1
             ks = [self.sym.int(f'm{i}_{j}', 0, 4) for j in range(n)]
@@ -75,15 +79,16 @@ class Double:
                 'AP*': {'action_prob': (r['a'], r['p'])}, 'PM*': {'pmf': list(r['pmf'])}}[f]
         if not self.kw: return body
         if f == 'AP': return (r['a'], r['p'], {'k': r['tok']})
+        if f == 'PM' and self.flat: return list(r['pmf']) + [{'k': r['tok']}]       # PMF followed by the kwargs mapping, flat like (action, prob, kwargs)
         return (body, {'k': r['tok']})
     def predict(self, context, actions):
         batched = hasattr(context,'is_batch') or hasattr(actions,'is_batch')
         if not batched:
             r = self._row(actions); self.calls.append(('predict',[r])); return self._one(r)
-        if self.mode == 'fallback': raise TypeError("this learner cannot handle batches")
+        if self.mode in ('fallback','pfb'): raise TypeError("this learner cannot handle batches")
         rows = [self._row(a) for a in actions]
         self.calls.append(('predict', rows))
-        if self.mode == 'row':
+        if self.mode in ('row','lfb'):
             return [self._one(r) for r in rows]
         # column major
         f = self.fmt
@@ -97,7 +102,7 @@ class Double:
         if f == 'AX' and not self.kw: return body[0]
         return body + ([kwd] if self.kw else [])
     def learn(self, context, action, reward, probability, **kw):
-        if (hasattr(context,'is_batch') or hasattr(action,'is_batch')) and self.mode == 'fallback':
+        if (hasattr(context,'is_batch') or hasattr(action,'is_batch')) and self.mode in ('fallback','lfb'):
             raise TypeError("this learner cannot handle batches")
         self.calls.append(('learn', context, action, reward, probability, kw))
 
@@ -106,10 +111,15 @@ def params(tier):
     for fmt in FORMATS:
         for kw in (False, True):
             for mode in ('none','row','col','fallback'):
-                if mode == 'col' and fmt == 'AX': continue        # a column of bare actions is the row layout
+                if mode == 'col' and fmt == 'AX' and not kw: continue        # a column of bare actions without kwargs is the row layout
                 for n in (1,2,3):
                     if fmt == 'PM' and mode == 'col' and n == 1: continue   # a one-action PMF column is indistinguishable from a column of bare values
                     ps.append(dict(fmt=fmt, kw=kw, mode=mode, n=n))
+    # learners with mixed batch capability: predict handles batches but learn does not ('lfb'), and the other way round ('pfb')
+    for fmt in ('AP','PM'):
+        for kw in (False, True):
+            for mode in ('lfb','pfb'):
+                ps.append(dict(fmt=fmt, kw=kw, mode=mode, n=3))
     return ps
 
 def _classify(v):
@@ -119,12 +129,12 @@ def _classify(v):
         return "batched call, int actions containing 0/1, PMF written with ints: read as (action, probability)"
     return v['what'].split(' :: ')[0][:100]
 
-@obligation('C15','formats', bounds={'quick':"6 formats x kwargs x {single, row-major, column-major, not-batch-capable}; 1..3 actions of 8 kinds (ints incl. 0/1, probability-looking floats, strings, one-hot tuples, lists, sparse dicts); batch size 1..3 (incl. the square case); two consecutive predict calls then learn; probabilities and PMF entries symbolic",
+@obligation('C15','formats', bounds={'quick':"6 formats x kwargs x {single, row-major, column-major, not-batch-capable, batch-capable in predict only / in learn only}; concrete binary64 weights whose sum is 1.0001 (inside the accepted PMF tolerance); 1..3 actions of 8 kinds (ints incl. 0/1, probability-looking floats, strings, one-hot tuples, lists, sparse dicts); batch size 1..3 (incl. the square case); two consecutive predict calls then learn; probabilities and PMF entries symbolic",
                                      'thorough':"same, batch sizes 1..3 for every action kind"},
             functions=FUNCS, params=params, classify=_classify, budget={'quick':80,'thorough':900})
 def formats(sym, fmt, kw, mode, n):
     kinds = list(ACTION_KINDS)
-    if mode != 'none' and fmt in ('AX','AP'): kinds.remove('sparse')     # a bare dict per row can be read two ways: needs explicit hints (outside the claim)
+    if mode != 'none' and fmt in ('AX','AP'): kinds.remove('sparse'); kinds.remove('sparse2')     # a bare dict per row can be read two ways: needs explicit hints (outside the claim)
     if fmt.startswith('PM'): kinds = ['ints012','ints12','floats','onehot','strs']
     kind = sym.choice('kind', kinds)
     B = 1 if mode == 'none' else sym.choice('B', [1,2,3] if not fmt.startswith('PM') else sorted({1,2,n}))
@@ -132,6 +142,7 @@ def formats(sym, fmt, kw, mode, n):
     actions = ACTION_KINDS[kind](n)
     seed = 7
     dbl = Double(sym, fmt, kw, mode)
+    dbl.flat = (fmt == 'PM' and kw and mode in ('none','row') and n >= 2) and sym.flag('flat_pmf_kwargs')
     safe = SafeLearner(dbl, seed)
     ref_rng = CobaRandom(seed)
     sym.note(case=f"fmt={fmt} kw={kw} mode={mode} n={n} kind={kind} B={B}")
@@ -144,7 +155,7 @@ def formats(sym, fmt, kw, mode, n):
         A, P, K = safe.predict(ctx, acts)
         nrows = 1 if mode == 'none' else B
         pcalls = [c[1] for c in dbl.calls[before:] if c[0]=='predict']
-        if mode == 'fallback':
+        if mode in ('fallback','pfb'):
             said = [rows[0] for rows in pcalls if len(rows) == 1][:nrows]       # one call per row
         else:
             # the answer that counts is the first full-size one (the square-case probe of batch_order comes afterwards)
@@ -163,8 +174,10 @@ def formats(sym, fmt, kw, mode, n):
             else:
                 u = ref_rng.random()
                 ok = False; lo = 0
+                tot = 0
+                for w in row['pmf']: tot = tot + w
                 for j,o in enumerate(offered):
-                    c = And(row['pmf'][j] > 0, u*1 >= lo, u*1 <= lo+row['pmf'][j])
+                    c = And(row['pmf'][j] > 0, u*tot >= lo, u*tot <= lo+row['pmf'][j])
                     if a is o or a == o: ok = Or(ok, And(c, p == row['pmf'][j]))
                     lo = lo + row['pmf'][j]
                 sym.check(ok, f"row {r}: PMF draw is not the seeded inverse-CDF member reported with exactly its probability")
@@ -182,8 +195,10 @@ def formats(sym, fmt, kw, mode, n):
         learned = [c for c in dbl.calls[before:] if c[0]=='learn']
         if mode in ('none',):
             sym.check(len(learned) == 1 and learned[0][2] is A and learned[0][5] == K, "learn did not receive action/kwargs unchanged")
-        elif mode == 'fallback':
-            sym.check(len(learned) == nrows, f"not-batch-capable learner must be taught once per row, got {len(learned)} calls")
+        elif mode == 'pfb' and len(learned) == 1:
+            sym.check(list(learned[0][2]) == As and learned[0][5] == K, "batched learn did not receive actions/kwargs unchanged")
+        elif mode in ('fallback','lfb','pfb'):
+            sym.check(len(learned) == nrows, f"a learner whose learn cannot handle batches must be taught once per row, got {len(learned)} calls")
             for r,c in enumerate(learned):
                 sym.check(c[2] is As[r] and (c[4] is Ps[r] or c[4] == Ps[r]), f"row {r}: per-row learn got a different action/probability")
                 sym.check(c[5] == ({'k': said[r]['tok']} if kw else {}), f"row {r}: per-row learn kwargs")
